@@ -237,6 +237,24 @@ func (w *World) Identity(name string) *idp.Identity {
 	return id
 }
 
+// CustomIdentity: an identity that was NOT minted by the built-in provider's id scheme - its id is an arbitrary
+// string chosen by the application (upper-case hex, "0x..", a DID, ...). The key is held by the world's keystore
+// under that id, the built-in provider signs with it, and the identity's signatures are real signatures.
+func (w *World) CustomIdentity(id string) *idp.Identity {
+	base := w.Idents[0]
+	key, err := w.KS.CreateKey(w.Ctx, id)
+	if err != nil {
+		panic(err)
+	}
+	pub, err := key.GetPublic().Raw()
+	if err != nil {
+		panic(err)
+	}
+	sigID, _ := key.Sign([]byte(id))
+	sigPK, _ := key.Sign(append(append([]byte(nil), pub...), sigID...))
+	return &idp.Identity{ID: id, PublicKey: pub, Signatures: &idp.IdentitySignature{ID: sigID, PublicKey: sigPK}, Type: base.Type, Provider: base.Provider}
+}
+
 func (w *World) LogOpts(id string) *ipfslog.LogOptions {
 	lo := &ipfslog.LogOptions{ID: id, SortFn: SortFn(w.Order), IO: w.io}
 	if w.DenyPrefix {
